@@ -9,7 +9,49 @@ Open Scope N_scope.
 Theorem flagged_refuses_dissemination : forall chk ct slot sd s,
   sd_panicked sd = false -> sd_misbehaved sd = true ->
   bs_step chk ct slot sd (BDissem s) = (sd, BRErr EInvalidShred, []).
-Proof. intros chk ct slot sd s Hp Hm. unfold bs_step. rewrite Hp, Hm. reflexivity. Qed.
+Proof.
+  intros chk ct slot sd s Hp Hm. unfold bs_step, bs_step_gen. rewrite Hp, Hm.
+  destruct (shred_tag_ok s); reflexivity.
+Qed.
+
+(* ---- the tag guard ("fix: do not blame the leader for a shred whose type contradicts its index") ---- *)
+(* a tag-consistent operation is handled exactly as before the fix *)
+Theorem bs_step_tag_ok : forall chk ct slot sd op, op_tag_ok op = true ->
+  bs_step chk ct slot sd op = bs_step_gen false chk ct slot sd op.
+Proof.
+  intros chk ct slot sd op H. unfold bs_step, bs_step_gen.
+  destruct (sd_panicked sd); [reflexivity|].
+  destruct op; cbn [op_tag_ok] in H; try rewrite H; reflexivity.
+Qed.
+
+(* a tag-inconsistent shred is refused up front - InvalidShred, no event, state untouched (in particular the
+   leader is NOT flagged and nothing is stored), on both paths, in EVERY state that has not panicked *)
+Theorem bs_step_tag_bad : forall chk ct slot sd op, sd_panicked sd = false -> op_tag_ok op = false ->
+  bs_step chk ct slot sd op = (sd, BRErr EInvalidShred, []).
+Proof.
+  intros chk ct slot sd op Hp H. unfold bs_step, bs_step_gen. rewrite Hp.
+  destruct op; cbn [op_tag_ok] in H; try rewrite H; try discriminate; reflexivity.
+Qed.
+
+(* every step is either the pinned step or the up-front refusal *)
+Lemma bs_step_cases : forall chk ct slot sd op,
+  bs_step chk ct slot sd op = bs_step_gen false chk ct slot sd op \/
+  (sd_panicked sd = false /\ op_tag_ok op = false /\ bs_step chk ct slot sd op = (sd, BRErr EInvalidShred, [])).
+Proof.
+  intros chk ct slot sd op. destruct (op_tag_ok op) eqn:T; [left; apply bs_step_tag_ok; exact T|].
+  destruct (sd_panicked sd) eqn:Hp.
+  - left. unfold bs_step, bs_step_gen. rewrite Hp. reflexivity.
+  - right. split; [reflexivity|]. split; [reflexivity|]. apply bs_step_tag_bad; assumption.
+Qed.
+
+(* ... and in a panicked state (unreachable, see NoPanicBlockstore) nothing changes either *)
+Theorem bs_step_tag_bad_state : forall chk ct slot sd op, op_tag_ok op = false ->
+  fst (fst (bs_step chk ct slot sd op)) = sd /\ snd (bs_step chk ct slot sd op) = [].
+Proof.
+  intros chk ct slot sd op H. unfold bs_step, bs_step_gen.
+  destruct (sd_panicked sd); [split; reflexivity|].
+  destruct op; cbn [op_tag_ok] in H; try rewrite H; try discriminate; split; reflexivity.
+Qed.
 
 Theorem flag_once : forall sd sd' evs, flag_misbehaviour sd = (sd', evs) ->
   sd_misbehaved sd' = true /\ (evs = [BInvalidBlock] /\ sd_misbehaved sd = false \/ evs = [] /\ sd_misbehaved sd = true).
